@@ -23,6 +23,8 @@ import Nitime.Model.C15Types
 import Nitime.Generated.SeriesCalls
 import Nitime.Generated.FsBindings
 import Nitime.Model.C15Reader
+import Nitime.Model.C15Opts
+import Nitime.Model.C19
 
 namespace Nitime.C15
 open Nitime
@@ -320,6 +322,10 @@ def handle (args : List String) : String :=
   | ["readseq", y, z, v, ts, toks, ops] => Reader.handleReadseq y z v ts toks ops
   -- readeropts <normalize|-> <filter method|->: accepted, or refused with ValueError
   | ["readeropts", nrm, meth] => if Reader.optionsOk nrm meth then "ok" else "err ValueError"
+  -- readerhist <call>;<call>;…: the keyword arguments every call of a history hands to FilterAnalyzer (Model/C15Opts.lean)
+  | ["readerhist", calls] => Opts.handleHist calls
+  -- era <C19 job line>: the event-related analyzer's DATA (multi-row event series, dtypes) through the C19 model
+  | "era" :: rest => Nitime.C19.handle rest
   | _ => "bad-op"
 
 end Nitime.C15
